@@ -5,11 +5,14 @@ set -e
 cd "$(dirname "$0")"
 export CARGO_NET_OFFLINE=true
 mkdir -p build/extracted build/replays evidence
-( cd coq && coq_makefile -f _CoqProject -o Makefile >/dev/null && timeout 3000 make -j16 ) 2>&1 | tail -5
 python3 - <<'PY'
 import sys
 sys.path.insert(0, ".")
 from driver import common
+rc, out = common.build_coq()
+print(out[-1500:])
+if rc != 0:
+    sys.exit(1)
 common.build_modelrun()
 ok, out = common.build_harness()
 print("harness build:", "ok" if ok else out[-3000:])
